@@ -22,6 +22,9 @@ def calc_velo_and_disp_from_accel_arr(acceleration, dt, trap=True):
         displacement time series
     """
     from scipy.integrate import cumulative_trapezoid
+    acceleration = np.asarray(acceleration)
+    if acceleration.dtype.kind in 'iub':  # integer counts: a[i] + a[i-1] overflows narrow integer types
+        acceleration = acceleration.astype(float)
     if trap is False:
         velocity = np.zeros(len(acceleration) + 1)
         velocity[1:] = np.asarray(acceleration) * dt  # computes the increments
